@@ -9,6 +9,7 @@ import (
 	"math"
 	"sort"
 	"strconv"
+	"sync"
 	"time"
 
 	"github.com/cloudwego/kitex/client"
@@ -583,7 +584,17 @@ func inboundListener(chains []gChain) *anypb.Any {
 	return mustAny(l)
 }
 
-type recUpdater struct{ got []interface{} }
+type recUpdater struct {
+	mu  sync.Mutex
+	got []interface{}
+}
+
+// pushed: what the running server's limiter has been handed so far, in order.
+func (u *recUpdater) pushed() []interface{} {
+	u.mu.Lock()
+	defer u.mu.Unlock()
+	return append([]interface{}{}, u.got...)
+}
 
 func limitJSON(o *limit.Option) obj {
 	q := interface{}(o.MaxQPS)
@@ -598,7 +609,13 @@ func limitJSON(o *limit.Option) obj {
 }
 
 func (u *recUpdater) UpdateLimit(o *limit.Option) bool {
+	if o.MaxQPS == 100 {
+		// the server's limiter takes its time with this value: the changes still reach it in the order they were made
+		time.Sleep(12 * time.Millisecond)
+	}
+	u.mu.Lock()
 	u.got = append(u.got, limitJSON(o))
+	u.mu.Unlock()
 	return true
 }
 
@@ -636,7 +653,7 @@ func runC18(c *ctx) {
 				events = append(events, obj{"e": "install", "obs": obj{"limit": limitJSON(lo), "noUpdateControl": true}})
 			} else if u == installAt && lo != nil {
 				lo.UpdateControl(upd)
-				events = append(events, obj{"e": "install", "obs": obj{"limit": limitJSON(lo), "pushed": append([]interface{}{}, upd.got...)}})
+				events = append(events, obj{"e": "install", "obs": obj{"limit": limitJSON(lo), "pushed": upd.pushed()}})
 			}
 			if u == nUpd {
 				break
@@ -682,7 +699,7 @@ func runC18(c *ctx) {
 					bad[0], bad[1] = bad[1], bad[0]
 				}
 				w.push(mkResp(xdsresource.ListenerTypeURL, fmt.Sprintf("bad%d", u+1), fmt.Sprintf("nb%d", u+1), bad))
-				ro := obj{"pushed": append([]interface{}{}, upd.got...)}
+				ro := obj{"pushed": upd.pushed()}
 				if lo != nil {
 					ro["limit"] = limitJSON(lo)
 				}
@@ -690,7 +707,7 @@ func runC18(c *ctx) {
 				c.count("rejected-responses", 1)
 			}
 			w.push(mkResp(xdsresource.ListenerTypeURL, verStr(r, u), fmt.Sprintf("n%d", u+1), anys))
-			o := obj{"pushed": append([]interface{}{}, upd.got...)}
+			o := obj{"pushed": upd.pushed()}
 			if lo != nil {
 				o["limit"] = limitJSON(lo)
 			}
